@@ -69,6 +69,8 @@ class SolveData:
         """
         if self.token is None:
             raise TypeError("Token is None.")
+        if not self.token.closed:
+            self.token.not_closed()
         self.token.set_value(self.string)
         self.parse_list.append(self.token)
         self.switch_operand()
